@@ -91,7 +91,7 @@ RULE = ("(call site, identifier choice, value assignment): every backend call x 
 
 KEYWORDS = set("""match optional where return with as call yield set remove detach delete unwind union and or not in is null true
 false distinct create merge order by limit skip on xor starts ends contains case when then else end exists all any none single asc
-desc foreach index if for""".split())
+desc foreach index if for constraint require unique drop assert""".split())
 
 
 def _ids(c):
@@ -193,7 +193,7 @@ def classify(raw):
 
 
 CLAUSE = set("match optional where return with call yield set remove detach delete unwind union order limit skip create merge foreach".split())
-NEEDS_OPERAND = set("where set return with and or xor not remove delete unwind match yield as in by on limit skip call when then else".split())
+NEEDS_OPERAND = set("where set return with and or xor not remove delete unwind match yield as in by limit skip call when then else".split())
 BAD_FOLLOWER = set("""match optional where return with call yield set remove detach delete unwind union order limit skip create merge on and or
 xor as in then else end when by""".split())
 STARTERS = set("match optional create merge call unwind with return foreach".split())
@@ -304,7 +304,7 @@ def scope_check(toks):
             path_var = depth[i] == 0 and _sym(nx, "=") and (_kw(p1, *PATTERN_CLAUSES) or (_sym(p1, ",") and last in PATTERN_CLAUSES))
             if pattern_var or rel_var or local_var or alias or path_var:
                 binders.append(x)
-            name_position = _sym(p1, ".", ":") or _sym(nx, ":", "(") or (_sym(nx, ".") and _dotted_call(toks, i + 1)) or _kw(p1, "index")
+            name_position = _sym(p1, ".", ":") or _sym(nx, ":", "(") or (_sym(nx, ".") and _dotted_call(toks, i + 1)) or _kw(p1, "index", "constraint")
             if not name_position:
                 refs.append(x)
             if is_with and depth[i] == 0:
@@ -365,7 +365,9 @@ def lint(text, supplied):
     n = len(toks)
     at = lambda i: toks[i] if 0 <= i < n else None
     unbound, clauses = scope_check(toks)
-    empty_clause = any(t[0] == "kw" and t[1] in NEEDS_OPERAND and _bad_follower(at(i + 1)) for i, t in enumerate(toks))
+    # (ON MATCH SET / ON CREATE SET: the MATCH / CREATE after ON is not a clause)
+    empty_clause = any(t[0] == "kw" and t[1] in NEEDS_OPERAND and _bad_follower(at(i + 1)) and not _kw(at(i - 1), "on")
+                       for i, t in enumerate(toks))
     dangling = any((_sym(t, ",") and (at(i + 1) is None or _sym(at(i + 1), ")", "]", "}", ","))) or
                    (_sym(t, *OPEN) and _sym(at(i + 1), ",")) for i, t in enumerate(toks))
     operand = any((_kw(t, "and", "or", "xor") and not _operand_end(at(i - 1))) or
@@ -964,15 +966,36 @@ def correspondence(ctx, res):
         for (text, pnames, _), ex in zip(rec, exp):
             key, variant = ex[0], ex[1]
             driven_keys.add(key)
-            driven_variants.add((key, variant))
             ids, vals, maps = model_env(case, ex[2] if len(ex) > 2 else None)
             reqs.append(json.dumps(["render", key, variant, ids, vals, maps]))
             meta.append((case, key, variant, text, pnames))
     out = LeanDriver("C19").run(reqs)
+    # The harness names the variant (branch / table entry) it expects to have run.  When the text differs and the call site has
+    # other variants, the recorded text may still be the rendering of another variant that the model says can run in this
+    # environment (a rewrite that only adds or reorders branches): those are tried before a disagreement is recorded.
+    retry, retry_meta = [], []
+    for i, ((case, key, variant, text, pnames), line) in enumerate(zip(meta, out)):
+        m = json.loads(line)
+        if (m[0] != "ok" or m[1].get("text") != text or not m[1].get("reachable", True)) and nv(key) > 1:
+            r = json.loads(reqs[i])
+            for v in range(nv(key)):
+                if v != variant:
+                    retry.append(json.dumps(r[:2] + [v] + r[3:]))
+                    retry_meta.append((i, v))
+    if retry:
+        for (i, v), line in zip(retry_meta, LeanDriver("C19").run(retry)):
+            m = json.loads(line)
+            if m[0] == "ok" and m[1].get("reachable") and m[1].get("text") == meta[i][3]:
+                cur = json.loads(out[i])
+                if cur[0] != "ok" or cur[1].get("text") != meta[i][3] or not cur[1].get("reachable", True):
+                    out[i] = line
+                    meta[i] = (meta[i][0], meta[i][1], v, meta[i][3], meta[i][4])
+                    res.count("variant-by-text")
     for (case, key, variant, text, pnames), line in zip(meta, out):
         m = json.loads(line)
         res.evaluations += 1
         res.count("site:" + key)
+        driven_variants.add((key, variant))
         impl = {"text": text, "supplied": pnames}
         impl.update(lint(text, pnames))
         if m[0] != "ok":
@@ -981,6 +1004,10 @@ def correspondence(ctx, res):
         mod = dict(m[1])
         mod["supplied"] = sorted(mod["supplied"])
         vf = mod.pop("vf")
+        if not mod.pop("reachable", True):
+            res.disagreements.append({"case": {"site": key, "variant": variant, "case": case}, "impl": impl,
+                                      "model": "the model says this variant cannot run in this environment (guards)"})
+            continue
         for d in impl["defects"]:
             res.count("lint:" + d)
         res.count("vf:%s" % vf)
@@ -999,6 +1026,22 @@ def correspondence(ctx, res):
     if missing_v:
         res.disagreements.append({"case": "coverage", "impl": "template variants (if/else branches, table entries) never reached by the harness",
                                   "model": [list(x) for x in missing_v]})
+    # every optional / container argument of every call must have been driven in every shape
+    want = []
+    for call in calls():
+        for m in call.maps:
+            for sh in (["empty", "one", "several"] + ([] if m.endswith("!") else ["None"])):
+                want.append("shape:%s:%s=%s" % (call.name, m.rstrip("!"), sh))
+        for slot, d in call.idents.items():
+            if d.endswith("?"):
+                want += ["shape:%s:%s=None" % (call.name, slot), "shape:%s:%s=given" % (call.name, slot)]
+        if call.name == "get_nodes_on_path_with_hops":
+            want += ["shape:%s:hops=%s" % (call.name, x) for x in ("empty", "one", "several")] + ["shape:%s:cut_off=default" % call.name]
+    missing_shapes = [w for w in want if not res.hist.get(w)]
+    if missing_shapes:
+        res.disagreements.append({"case": "coverage", "impl": "argument shapes never driven", "model": missing_shapes})
+    ctx.notes.append("argument shapes driven: %d of %d (None / empty / one / several per optional or container argument)" % (
+        len(want) - len(missing_shapes), len(want)))
     ctx.notes.append("correspondence reached %d of %d template variants" % (len(all_variants & driven_variants), len(all_variants)))
     ctx.notes.append("correspondence drove %d call sites of %d generated" % (len(driven_keys), len(tab)))
 
@@ -1041,13 +1084,55 @@ def mutate(text, rng):
     return "".join(words)
 
 
+# the specification of the lint by example: valid Cypher of the kinds a harmless rewrite of the backend could introduce must stay
+# clean (no false alarm), and each kind of malformation must be named.  Both implementations are run on every entry.
+LINT_SUITE = [
+    ("MATCH (n:GraphNode {GraphID: $g}) RETURN n.NodeID AS id ORDER BY id DESC SKIP 1 LIMIT 5", []),
+    ("MATCH (n {GraphID: $g}) OPTIONAL MATCH (n)-[r:has]->(m) WITH DISTINCT n, count(m) AS c WHERE c > 1 RETURN n, c", []),
+    ("MERGE (n:GraphNode {GraphID: $g}) ON CREATE SET n.Name = $g ON MATCH SET n.Seen = true RETURN n", []),
+    ("CREATE CONSTRAINT nodeid_unique IF NOT EXISTS FOR (n:GraphNode) REQUIRE n.NodeID IS UNIQUE", []),
+    ("CREATE INDEX graphid_name IF NOT EXISTS FOR (n:GraphNode) ON (n.GraphID, n.Name)", []),
+    ("UNWIND $g AS x MATCH (n {NodeID: x}) SET n += {Seen: true} REMOVE n.Tmp", []),
+    ("MATCH (n {GraphID: $g}) WHERE n.Name STARTS WITH 'a' AND NOT (n)-[:has]-() RETURN count(*) AS c", []),
+    ("MATCH (n {GraphID: $g}) RETURN CASE WHEN n.Type = 'VM' THEN 1 ELSE 0 END AS vm UNION ALL MATCH (m {GraphID: $g}) RETURN 2 AS vm", []),
+    ("MATCH p=(a {GraphID: $g})-[*1..3]->(b) WITH *, length(p) AS l RETURN a, b, l", []),
+    ("MATCH (n {GraphID: $g}) DETACH DELETE n", []),
+    ("CALL db.labels() YIELD label RETURN label", []),
+    ("MATCH (n {GraphID: $g}) WITH n ORDER BY n.Name LIMIT 3 MATCH (n)-[:has]-(c) RETURN [x IN collect(c) WHERE x.Type = 'GPU' | x.NodeID] AS gpus", []),
+    ("MATCH (n {GraphID: $g}) WHERE  RETURN n", ["empty-clause"]),
+    ("MATCH (n {GraphID: $g}) WHERE n.a = 1 AND RETURN n", ["empty-clause"]),
+    ("MATCH (n {GraphID: $g}) WHERE (OR n.a = 1) RETURN n", ["missing-operand"]),
+    ("MATCH (n {GraphID: $g}) SET n.a =  RETURN n", ["missing-operand"]),
+    ("MATCH (n {GraphID: $g, Name: }) RETURN n", ["missing-operand"]),
+    ("MATCH (n {GraphID: $g, }) RETURN n", ["dangling-comma"]),
+    ("MATCH (n {GraphID: $g}) RETURN n, ", ["dangling-comma"]),
+    ("MATCH (n {GraphID: $g}) WHERE n.a = 1 WHERE n.b = 2 RETURN n", ["clause-order"]),
+    ("MATCH (n {GraphID: $g}) RETURN n SET n.a = 1", ["clause-order"]),
+    ("MATCH (n {GraphID: $g}) WHERE n.a = 1", ["clause-order"]),
+    ("SET n.a = 1 RETURN 1", ["unbound-variable", "clause-order"]),
+    ("MATCH (n {GraphID: $g}) WITH n.Name AS name RETURN n", ["unbound-variable"]),
+    ("MATCH (n {GraphID: $g}) WHERE m.a = 1 MATCH (m) RETURN n", ["unbound-variable"]),
+    ("MATCH (n {GraphID: $g}) RETURN n UNION MATCH (m) RETURN n", ["unbound-variable"]),
+    ("MATCH (n {GraphID: $g}) CALL apoc.x.y(n) YIELD value RETURN valu", ["unbound-variable"]),
+    ("MATCH (n {GraphID: $g}) RETURN n.{name}", ["unexpanded-template", "unbound-variable"]),
+    ("MATCH (n {{GraphID: $g}}) RETURN n", ["unexpanded-template"]),
+    ("MATCH (n {GraphID: $g} RETURN n", ["unbalanced", "clause-order"]),
+    ("MATCH (n {GraphID: $g, Name: 'it's'}) RETURN n", ["unbalanced", "unbound-variable", "clause-order"]),
+    ("MATCH (n {GraphID: $g, NodeID: $h}) RETURN n", ["missing-parameter"]),
+]
+
+
 def lint_agreement(ctx, res, stmts):
     """Model/Cypher.lean `lint` and the Python `lint` above are two implementations of one specification: they must return the same
     defects, unbound variables (in order) and missing parameters on every statement the backend issues AND on mutated neighbours of
     those statements (tokens deleted, duplicated, swapped, inserted, renamed; truncations)"""
     rng = ctx.sub_rng("lint-fuzz")
-    per = ctx.scale(6, 60)
-    cases = []
+    per = ctx.scale(4, 60)
+    for t, want in LINT_SUITE:
+        got = lint(t, ["g"])["defects"]
+        if got != want:
+            res.disagreements.append({"case": {"lint-suite": t}, "impl": got, "model": "specified: %s" % want})
+    cases = [(t, ["g"]) for t, _ in LINT_SUITE]
     for text, sup in stmts:
         cases.append((text, list(sup)))
         for _ in range(per):
@@ -1102,6 +1187,8 @@ WHAT = {"parameter-names": "parameter names depend on stored values",
 # what a leak is shown with when the value that exposed it is not enough on its own: a quote of either kind closing the literal,
 # a trailing backslash swallowing the closing quote, a back-tick, braces and a parameter name
 PAYLOADS = ["p'}) DETACH DELETE n //", 'p"}) DETACH DELETE n //', "p\\", "p`q", "{{p}} {p} $graphId"]
+# falsy-but-valid scalars: an operation that decides what to put into the text by truth value instead of `is None` shows here
+FALSY = ["", 0, False]
 
 
 def supplied_values(case):
@@ -1210,7 +1297,7 @@ def argument_sweep(ctx, res):
             rec0, _ = drive(base)
             sites = list(drive.where)
             for arg in value_args(base):
-                for pl in PAYLOADS:
+                for pl in PAYLOADS + FALSY:
                     single = with_arg(base, arg, payload=pl)
                     n += 1
                     f = single_run(base, single, rec0, sites)
